@@ -26,6 +26,8 @@ MOTIONS = {
     5: dict(scale=2.0),
     6: dict(scale=0.37, rot=((3, -1, 2), 2.3), shift=(1.0, 2.0, 3.0), perm="shuffle"),
     7: dict(rot=((0.6, 0.8, 0), math.pi), perm="shuffle"),
+    8: dict(scale=1e-6, shift=(2e-6, -1e-6, 3e-6)),                                # metres instead of micrometres
+    9: dict(scale=3.0e4, rot=((0, 1, 0), 0.5)),
 }
 
 
